@@ -1,6 +1,6 @@
 (* C14 -- any allocation failure is reported cleanly, without leak or corruption.
    Statements only; proofs in Proofs/LedgerProofs.v, LedgerOps.v, LedgerBase.v, LedgerNormalize.v, LedgerTheorems.v,
-   LedgerTransparent.v, LedgerRefused.v.
+   LedgerTransparent.v, LedgerRefused.v, LedgerQuery.v.
 
    The theorems are about the memory tier of the model (Model/Mem.v, ParseM.v, OpsM.v), which mirrors the C
    code allocation by allocation, every error exit included (gen/c14.py compares full allocation traces for
@@ -19,7 +19,8 @@
    ([incl (live_ids s) (live_ids s')], resp. the permutations, which leave every other live block in place).
 
    Covered calls: parse, make owner, normalize (any mask, borrowed and owned), add base (resolve), remove
-   base (create reference), free members.  NOT covered: dissect query / compose query (no memory-tier model). *)
+   base (create reference), free members, and (second part of this file; memory tier Model/QueryM.v, proofs
+   Proofs/LedgerQuery.v) dissect query, compose query, free query list. *)
 From Coq Require Import List NArith Permutation Lia.
 From UP Require Import Base.Chars Model.Uri Model.Mem Model.ParseM Model.OpsM
   Proofs.LedgerProofs Proofs.LedgerOps Proofs.LedgerBase Proofs.LedgerNormalize Proofs.LedgerTheorems Proofs.LedgerTransparent
@@ -250,4 +251,160 @@ Example C14_nonvacuous :
 Proof.
   cbv zeta. intros k Hk.
   do 6 (destruct k as [|k]; [vm_compute; repeat split; try discriminate; try lia; intros [? ?]; lia|]). lia.
+Qed.
+
+(* ================================================================================================================
+   The query functions (memory tier: Model/QueryM.v, proofs: Proofs/LedgerQuery.v): uriDissectQueryMallocExMm (with
+   uriAppendQueryItem's unwinding and the release of the partial list) and uriComposeQueryMallocExMm.  As above: any
+   well-formed ledger, any fault plan (no hypothesis on [ms_plan s]), any request counter, both widths, unbounded sizes.
+   The caller's ordinary clean-up is: after a successful dissect, uriFreeQueryListMm on the list; after a successful
+   compose, free of the string; after a failure, nothing. *)
+From Coq Require Import ZArith.
+From UP Require Import Model.Escape Model.Query Model.QueryM Proofs.QueryProofs Proofs.LedgerQuery.
+
+Theorem C14_query_vocabulary : forall r, is_oom r = true <-> exists d, r = DMMalloc d.
+Proof. exact is_oom_meaning. Qed.
+Print Assumptions C14_query_vocabulary.
+
+(* ---- dissect.  Out-of-memory only if a request was refused; then nothing of what the call allocated is left (the
+   live blocks are those from before the call) and nothing was released that was not live; never under NoFault *)
+Theorem C14_dissect_oom : forall csize pts bc t s0, wf s0 ->
+  match dissect_m csize pts bc t s0 with
+  | (DMMalloc d, s') => fails_between s0 s' /\ Permutation (live_ids s') (live_ids s0) /\ bad_frees s' = bad_frees s0
+  | (DMOk _ _, s') => bad_frees s' = bad_frees s0
+  end /\ (ms_plan s0 = NoFault -> is_oom (fst (dissect_m csize pts bc t s0)) = false).
+Proof. exact dissect_m_oom. Qed.
+Print Assumptions C14_dissect_oom.
+
+(* the state the call leaves: the list of a successful call owns its blocks (live, pairwise distinct), whatever the plan
+   did; after out-of-memory no block of the list the call had begun is live *)
+Theorem C14_dissect_state : forall csize pts bc t s0, wf s0 ->
+  match dissect_m csize pts bc t s0 with
+  | (DMOk items n, s') =>
+    wf s' /\ ext s0 s' /\ Permutation (live_ids s') (mqlist_blocks items ++ live_ids s0)
+    /\ NoDup (mqlist_blocks items) /\ n = Z.of_nat (length items)
+  | (DMMalloc d, s') =>
+    wf s' /\ ext s0 s' /\ Permutation (live_ids s') (live_ids s0) /\ fails_between s0 s'
+    /\ (forall b, In b (mqlist_blocks d) -> ~ In b (live_ids s'))
+  end.
+Proof. exact dissect_m_balanced. Qed.
+Print Assumptions C14_dissect_state.
+
+(* success followed by the clean-up: the ledger is back, no bad release *)
+Theorem C14_dissect_clean : forall csize pts bc t s0 items n s1, wf s0 -> dissect_m csize pts bc t s0 = (DMOk items n, s1) ->
+  let s2 := free_query_list_m items s1 in
+  wf s2 /\ Permutation (live_ids s2) (live_ids s0) /\ bad_frees s2 = bad_frees s0
+  /\ ms_requests s2 = ms_requests s1 /\ ms_plan s2 = ms_plan s0.
+Proof. exact dissect_m_release. Qed.
+Print Assumptions C14_dissect_clean.
+
+(* a refused request is always reported; with C14_dissect_oom: out-of-memory iff a request made during the call was refused *)
+Theorem C14_dissect_refused_is_oom : forall csize pts bc t s,
+  fails_between s (snd (dissect_m csize pts bc t s)) -> is_oom (fst (dissect_m csize pts bc t s)) = true.
+Proof. exact dissect_m_refused_is_oom. Qed.
+Print Assumptions C14_dissect_refused_is_oom.
+
+Theorem C14_dissect_transparent : forall csize pts bc t s, ~ fails_between s (snd (dissect_m csize pts bc t s)) ->
+  dissect_m csize pts bc t (np s) = (fst (dissect_m csize pts bc t s), np (snd (dissect_m csize pts bc t s))).
+Proof. exact dissect_m_fault_transparent. Qed.
+Print Assumptions C14_dissect_transparent.
+
+(* the deviation: "*dest is NULL after a failure" is FALSE for the code as it is.  uriDissectQueryMallocExMm releases
+   the partial list but leaves its address in *dest when at least one item had been appended ([DMMalloc d] with
+   d <> []).  Witness "a=b&c", fifth request refused (harness request: qdissectx 1 3 61.3d.62.26.63 5 0, reproduced on
+   the C code: dest=1 ... bad=3).  A caller that does nothing after the failure is fine (C14_dissect_oom); one that
+   hands *dest to uriFreeQueryListMm releases every block of the stale list a second time: *)
+Theorem C14_dissect_oom_dest_null_refuted :
+  exists pts bc t p, match dissect_m 1 pts bc t (ms_init p) with
+                     | (DMMalloc d, s') => d <> [] /\ ms_live s' = [] /\ bad_frees s' = 0 /\ bad_frees (free_query_list_m d s') = 3
+                     | _ => False
+                     end.
+Proof. exact dissect_m_oom_dest_null_refuted. Qed.
+Print Assumptions C14_dissect_oom_dest_null_refuted.
+
+Theorem C14_dissect_stale_dest : forall csize pts bc t s0 d s1, wf s0 -> dissect_m csize pts bc t s0 = (DMMalloc d, s1) ->
+  ms_live (free_query_list_m d s1) = ms_live s1
+  /\ bad_frees (free_query_list_m d s1) = bad_frees s0 + length (mqlist_blocks d).
+Proof. exact dissect_m_stale_dest. Qed.
+Print Assumptions C14_dissect_stale_dest.
+
+(* ---- compose.  Whatever the call returns, after the clean-up (free of the string if there is one) the ledger is back
+   and nothing bad was released *)
+Theorem C14_compose_clean : forall csize stp nb l s0, wf s0 ->
+  let '(r, s1) := compose_m csize stp nb l s0 in
+  let s2 := free_string_m r s1 in
+  wf s2 /\ Permutation (live_ids s2) (live_ids s0) /\ bad_frees s2 = bad_frees s0 /\ ms_requests s2 = ms_requests s1
+  /\ ms_plan s2 = ms_plan s0.
+Proof. exact compose_m_release. Qed.
+Print Assumptions C14_compose_clean.
+
+(* the state the call leaves; out-of-memory is returned when the (single) request was refused -- or, without any request,
+   when the required size is exactly INT_MAX; any other error code is the one of the chars-required pass and leaves the
+   state untouched *)
+Theorem C14_compose_state : forall csize stp nb l s0, wf s0 ->
+  match compose_m csize stp nb l s0 with
+  | (CMOk out b, s') =>
+    wf s' /\ ext s0 s' /\ Permutation (live_ids s') (b :: live_ids s0) /\ ~ In b (live_ids s0)
+    /\ exists r, chars_required stp nb l = ZOk r /\ (0 <= r < INT_MAX)%Z
+         /\ In (b, (Z.to_N (r + 1) * csize)%N) (ms_live s') /\ out = query_text stp nb l /\ (Z.of_nat (length out) <= r)%Z
+  | (CMErr c, s') =>
+    wf s' /\ ext s0 s' /\ Permutation (live_ids s') (live_ids s0)
+    /\ (c = URI_ERROR_MALLOC -> fails_between s0 s' \/ (chars_required stp nb l = ZOk INT_MAX /\ s' = s0))
+    /\ (c <> URI_ERROR_MALLOC -> s' = s0 /\ chars_required stp nb l = ZErr c)
+  end.
+Proof. exact compose_m_balanced. Qed.
+Print Assumptions C14_compose_state.
+
+Theorem C14_compose_refused_is_oom : forall csize stp nb l s,
+  fails_between s (snd (compose_m csize stp nb l s)) -> fst (compose_m csize stp nb l s) = CMErr URI_ERROR_MALLOC.
+Proof. exact compose_m_refused_is_oom. Qed.
+Print Assumptions C14_compose_refused_is_oom.
+
+Theorem C14_compose_transparent : forall csize stp nb l s, ~ fails_between s (snd (compose_m csize stp nb l s)) ->
+  compose_m csize stp nb l (np s) = (fst (compose_m csize stp nb l s), np (snd (compose_m csize stp nb l s))).
+Proof. exact compose_m_fault_transparent. Qed.
+Print Assumptions C14_compose_transparent.
+
+(* "never out-of-memory under NoFault" is FALSE for compose: exactly the lists whose required size is INT_MAX get the
+   out-of-memory code although the manager was never asked.  (The property does not forbid it; the pure tier has the
+   same branch, Props/C17.v.) *)
+Theorem C14_compose_nofault_oom : forall csize stp nb l s, wf s -> ms_plan s = NoFault ->
+  (fst (compose_m csize stp nb l s) = CMErr URI_ERROR_MALLOC <-> chars_required stp nb l = ZOk INT_MAX).
+Proof. exact compose_m_nofault_oom. Qed.
+Print Assumptions C14_compose_nofault_oom.
+
+(* witness: one item, a key of 715827881 characters and a value of one, no break normalisation *)
+Theorem C14_compose_oom_without_request_refuted :
+  exists l, chars_required false false l = ZOk INT_MAX
+            /\ forall csize s, compose_m csize false false l s = (CMErr URI_ERROR_MALLOC, s).
+Proof. exact compose_m_oom_without_request_refuted. Qed.
+Print Assumptions C14_compose_oom_without_request_refuted.
+
+(* the release call makes no request and does not look at the plan *)
+Theorem C14_free_query_list_plan_independent : forall l s,
+  free_query_list_m l (np s) = np (free_query_list_m l s) /\ ms_requests (free_query_list_m l s) = ms_requests s
+  /\ ms_plan (free_query_list_m l s) = ms_plan s.
+Proof. exact free_query_list_m_plan_independent. Qed.
+Print Assumptions C14_free_query_list_plan_independent.
+
+(* example: "a=b&c&d=" makes 8 requests (three nodes, three keys, two values); for every position k the ledger is empty
+   after the call, no bad release, and the code is out-of-memory exactly for 1 <= k <= 8; dissect, compose (ninth
+   request), clean-up: empty for every k, both modes *)
+Example C14_query_nonvacuous :
+  let t := [97; 61; 98; 38; 99; 38; 100; 61]%N in
+  (forall k, k <= 9 ->
+     let '(r, s1) := dissect_m 4 true BrDontTouch t (ms_init (FailOnce k)) in
+     bad_frees s1 = 0 /\ (is_oom r = true <-> 1 <= k <= 8) /\ (is_oom r = true -> ms_live s1 = []))
+  /\ (forall k, k <= 10 ->
+     match dissect_m 1 true BrDontTouch t (ms_init (FailFrom k)) with
+     | (DMOk items n, s1) =>
+       let '(r, s2) := compose_m 1 true true (erase_q items) s1 in
+       ms_live (free_query_list_m items (free_string_m r s2)) = []
+       /\ bad_frees (free_query_list_m items (free_string_m r s2)) = 0 /\ (is_cm_oom r = true <-> k = 9)
+     | (DMMalloc _, s1) => ms_live s1 = [] /\ k <= 8
+     end).
+Proof.
+  cbv zeta. split; intros k Hk.
+  - do 10 (destruct k as [|k]; [vm_compute; repeat split; intros; first [reflexivity | congruence | lia | (exfalso; lia)]|]). lia.
+  - do 11 (destruct k as [|k]; [vm_compute; repeat split; intros; first [reflexivity | congruence | lia | (exfalso; lia)]|]). lia.
 Qed.
